@@ -21,7 +21,11 @@ def gen_table(rng, c):
     sample still has exactly one row with a positive major copy number)."""
     n_mut = int(rng.integers(2, 9))
     D = int(rng.integers(1, 4))
-    samples = ["T%d" % s for s in rng.permutation(9)[:D]]
+    if c % 4 == 1:
+        # purely numeric sample ids whose numeric order differs from their string order ("10" < "2")
+        samples = [str(x) for x in rng.permutation([2, 10, 33, 9, 100, 7])[:D]]
+    else:
+        samples = ["T%d" % s for s in rng.permutation(9)[:D]]
     numeric_ids = c % 5 == 0
     ids = list(rng.permutation(50)[:n_mut] + 1) if numeric_ids else ["mut_%s" % "".join(rng.choice(list("abcxyz"), 3)) + str(i) for i in range(n_mut)]
     rows = []
